@@ -84,6 +84,9 @@ struct ECase {
     /// further queries processed, in order, by the SAME plugin instance after `query`
     #[serde(default)]
     seq: Vec<Value>,
+    /// further STAGES: each rewrites the files of this case in place (same paths) and builds a NEW plugin from them
+    #[serde(default)]
+    then: Vec<ECase>,
 }
 
 fn dec(v16: i64) -> String {
@@ -808,8 +811,39 @@ fn shape_around(r: &mut Rng, c: P) -> Vec<P> {
     }
 }
 
+/// one case = one or more STAGES: every stage writes its files to the SAME paths (contents of the previous stage
+/// overwritten in place), builds a fresh plugin from them and runs its queries; every stage is judged against the
+/// file contents at ITS build time
 fn run_edge_case(st: &mut Stream, dir: &Path, c: &ECase) {
     let id = st.next_id();
+    let stages: Vec<&ECase> = std::iter::once(c).chain(c.then.iter()).collect();
+    let mut payloads = vec![];
+    let mut args = vec![];
+    let mut nontrivial = false;
+    for sc in &stages {
+        let (p, a, n) = edge_stage(st, dir, id, sc);
+        payloads.push(p);
+        args.push(a);
+        nontrivial |= n;
+    }
+    st.count(&format!("plugin_builds_on_same_files:{}", stages.len()));
+    let terms = if stages.len() == 1 {
+        vec![format!("line_em_seq {} {}", id, args[0]), format!("line_es_seq {} {}", id, args[0])]
+    } else {
+        vec![
+            format!("stages_line \"M\"%string {} [{}]", id, args.iter().map(|a| format!("line_em_seq {} {}", id, a)).collect::<Vec<_>>().join("; ")),
+            format!("stages_line \"S\"%string {} [{}]", id, args.iter().map(|a| format!("line_es_seq {} {}", id, a)).collect::<Vec<_>>().join("; ")),
+        ]
+    };
+    let line = format!("I {} {}", id, payloads.join(" || "));
+    let mut desc = serde_json::to_value(c).unwrap();
+    desc["id"] = json!(id);
+    if nontrivial {
+        st.mark_nontrivial(&desc.to_string());
+    }
+    st.case(terms, vec![line], desc);
+}
+fn edge_stage(st: &mut Stream, dir: &Path, id: usize, c: &ECase) -> (String, String, bool) {
     let gp = dir.join(format!("e_{}_geom.txt", id));
     let cp = dir.join(format!("e_{}_class.txt", id));
     let rp = dir.join(format!("e_{}_restr.csv", id));
@@ -849,7 +883,7 @@ fn run_edge_case(st: &mut Stream, dir: &Path, c: &ECase) {
     let mut steps = vec![];
     let mut heads = vec![];
     for q in &queries {
-        let vparams = VehicleParameters::from_query(q).ok();
+        let vparams = spec_vehicle_parameters(q);
         let truck = truck_table(c, q);
         // road-class verdict on the harness side (only to know the admissible set for ties / oracle table;
         // the model computes its own from the query)
@@ -899,7 +933,6 @@ fn run_edge_case(st: &mut Stream, dir: &Path, c: &ECase) {
         }
         heads.push(head);
     }
-    let line = format!("I {} {}", id, parts.join(" | "));
     let args = format!(
         "{} {} {} {} [{}]",
         coq_list(&all, |(i, p)| format!("C {} {} {}", i, coq_q16(p.0), coq_q16(p.1))),
@@ -908,7 +941,6 @@ fn run_edge_case(st: &mut Stream, dir: &Path, c: &ECase) {
         coq_opt(&c.classes, |cl| coq_list(cl, |k| coq_z(*k as i128))),
         steps.join("; ")
     );
-    let terms = vec![format!("line_em_seq {} {}", id, args), format!("line_es_seq {} {}", id, args)];
 
     st.count(&format!("family:{}", c.family));
     st.count(&format!("candidates:{}", bucket(c.edges.len())));
@@ -925,20 +957,34 @@ fn run_edge_case(st: &mut Stream, dir: &Path, c: &ECase) {
     }).count();
     st.count(&format!("edges_with_centroid_outside_endpoint_box:{}", match outside { 0 => "0", 1 => "1", 2..=5 => "2-5", _ => "6+" }));
     let nontrivial = heads.iter().any(|head| (head == "Ok" && c.edges.len() >= 2) || (head.starts_with("Err InputPluginFailed") && !c.edges.is_empty()));
-    let mut desc = serde_json::to_value(c).unwrap();
-    desc["id"] = json!(id);
-    if nontrivial {
-        st.mark_nontrivial(&desc.to_string());
-    }
-    st.case(terms, vec![line], desc);
+    (parts.join(" | "), args, nontrivial)
 }
 
 /// the vehicle-restriction verdict per edge under the query's vehicle parameters: an edge is admissible iff the
 /// vehicle passes EVERY restriction row written for it (rows in any order, anywhere in the file). Each row is turned
 /// into a VehicleRestriction the way RestrictionRow::to_restriction does and judged by the real
 /// VehicleRestriction::valid; the restriction-file LOADER of the plugin is deliberately not used here.
+/// The query's vehicle parameters as the UNCHANGED VehicleParameters::from_query reads them (the plugin takes
+/// `from_query(query).ok()`): all six fields must be present and well typed; `number_of_axles` is any JSON
+/// number for which as_u64() answers (a non-negative integer, however large - the unchanged code narrows it with
+/// `as u8`); a negative, fractional or non-numeric axle count, like any other unreadable field, means the query has
+/// NO vehicle parameters. Written out here so that the expected value does not follow a change of from_query.
+fn spec_vehicle_parameters(q: &Value) -> Option<VehicleParameters> {
+    use routee_compass_core::model::unit::{Weight, WeightUnit};
+    let vp = q.get("vehicle_parameters")?;
+    let dist = |k: &str| -> Option<(Distance, DistanceUnit)> { serde_json::from_value(vp.get(k)?.clone()).ok() };
+    let total_weight: (Weight, WeightUnit) = serde_json::from_value(vp.get("total_weight")?.clone()).ok()?;
+    Some(VehicleParameters {
+        height: dist("height")?,
+        width: dist("width")?,
+        total_length: dist("total_length")?,
+        trailer_length: dist("trailer_length")?,
+        total_weight,
+        number_of_axles: vp.get("number_of_axles")?.as_u64()? as u8,
+    })
+}
 fn truck_table(c: &ECase, q: &Value) -> Vec<bool> {
-    let vparams = VehicleParameters::from_query(q).ok();
+    let vparams = spec_vehicle_parameters(q);
     (0..c.edges.len())
         .map(|i| match (&c.restrictions, &vparams) {
             (Some(rows), Some(vp)) => rows.iter().filter(|(e, _, _, _)| *e == i).all(|(_, name, value, unit)| {
@@ -981,6 +1027,7 @@ fn ecase(family: &str, edges: Vec<Vec<P>>, classes: Option<Vec<u8>>, restriction
         unit: tol.and_then(|t| t.1.map(String::from)),
         query,
         seq: vec![],
+        then: vec![],
     }
 }
 
@@ -1048,6 +1095,9 @@ fn many_inadmissible(k: usize, mode: usize, with_tol: bool, shuffled: bool) -> E
     ecase("many_inadmissible_nearer", edges, if mode != 1 { Some(classes) } else { None }, if mode != 0 { Some(restrictions) } else { None }, tol, query)
 }
 
+fn d_near_early(o: P) -> f64 {
+    hav(o, (-1680, 632)).unwrap()
+}
 fn edge_boundary_cases() -> Vec<ECase> {
     let mut out = vec![];
     // five edges east of the origin coordinate, increasingly far: centroids (x, 39.5) for x = -105 + k/4
@@ -1095,6 +1145,47 @@ fn edge_boundary_cases() -> Vec<ECase> {
             out.push(ecase("multi_row_restrictions", line.clone(), None, Some(rows.clone()), None, truck.clone()));
             out.push(ecase("multi_row_restrictions", line.clone(), Some(classes.clone()), Some(rows.clone()), Some((tol_for(hav(o, (-1672, 632)).unwrap(), "kilometers", 3.0), Some("kilometers"))), with(truck.clone(), "road_classes", json!([1, 2, 3, 4, 5]))));
         }
+    }
+    // REBUILDS: the geometry (and class) files are rewritten IN PLACE and a new plugin is built from the same paths
+    // in the same process: same number of rows with other coordinates / another edge order, then a different
+    // number of rows (control). Every build must answer from the file contents at ITS build time.
+    {
+        let rev: Vec<Vec<P>> = line.iter().rev().cloned().collect();
+        let shifted: Vec<Vec<P>> = line.iter().map(|l| l.iter().map(|p| (p.0 + 9, p.1 + 4)).collect()).collect();
+        let four: Vec<Vec<P>> = line.iter().skip(1).cloned().collect();
+        let qd = query_of(Some(o), Some((-1665, 630)), &[]);
+        let mut c = ecase("rebuild_same_path", line.clone(), None, None, None, qd.clone());
+        c.then = vec![ecase("rebuild_same_path", rev.clone(), None, None, None, qd.clone()), ecase("rebuild_same_path", shifted.clone(), None, None, None, qd.clone())];
+        out.push(c);
+        let mut c = ecase("rebuild_same_path", rev.clone(), Some(vec![5, 4, 3, 2, 1]), None, Some((tol_for(d_near_early(o), "meters", 2.0), Some("meters"))), with(q0.clone(), "road_classes", json!([1, 2, 3, 4, 5])));
+        c.then = vec![ecase("rebuild_same_path", line.clone(), Some(vec![1, 2, 3, 4, 5]), None, Some((tol_for(d_near_early(o), "meters", 2.0), Some("meters"))), with(q0.clone(), "road_classes", json!([1, 2, 3, 4, 5])))];
+        out.push(c);
+        let mut c = ecase("rebuild_other_row_count", line.clone(), None, None, None, qd.clone());
+        c.then = vec![ecase("rebuild_other_row_count", four.clone(), None, None, None, qd.clone()), ecase("rebuild_other_row_count", line.clone(), None, None, None, qd.clone())];
+        out.push(c);
+        let mut c = ecase("rebuild_same_path", shifted.clone(), None, None, None, q0.clone());
+        c.seq = vec![qd.clone()];
+        let mut second = ecase("rebuild_same_path", line.clone(), None, None, None, q0.clone());
+        second.seq = vec![qd.clone(), q0.clone()];
+        c.then = vec![second];
+        out.push(c);
+    }
+    // boundary axle counts: whenever the unchanged from_query yields parameters (any non-negative integer, narrowed
+    // with `as u8`), the height / weight restrictions of the nearest edges must still be enforced; a negative,
+    // fractional or non-numeric count means no vehicle parameters at all (no restriction applies). No per-axle row
+    // is used here, so the verdict does not depend on the narrowed value.
+    {
+        let rows = vec![(0usize, "maximum_height", 4.0, "meters"), (1, "maximum_total_weight", 10.0, "tons"), (1, "maximum_length", 100.0, "feet"), (3, "maximum_width", 10.0, "feet")];
+        for axles in [json!(0), json!(1), json!(255), json!(256), json!(65536), json!(u64::MAX), json!(-1), json!(2.5), json!("5"), json!(null)] {
+            for (h, w) in [(4.5, 5000.0), (4.5, 20000.0), (3.0, 20000.0)] {
+                let mut v = vehicle(h, w);
+                v["number_of_axles"] = axles.clone();
+                out.push(ecase("axle_boundary", line.clone(), None, Some(rows.clone()), None, with(q0.clone(), "vehicle_parameters", v)));
+            }
+        }
+        let mut v = vehicle(4.5, 20000.0);
+        v.as_object_mut().unwrap().remove("number_of_axles");
+        out.push(ecase("axle_boundary", line.clone(), None, Some(rows.clone()), None, with(q0.clone(), "vehicle_parameters", v)));
     }
     // both filters
     out.push(ecase("both_filters", line.clone(), Some(vec![1, 1, 2, 2, 1]), Some(restr.clone()), None, with(with(q0.clone(), "road_classes", json!([1])), "vehicle_parameters", vehicle(4.0, 5000.0))));
@@ -1330,7 +1421,7 @@ fn random_crowded_case(r: &mut Rng) -> ECase {
     let mut query = query_of(Some(o), d, &random_extras(r));
     query = with(query, "road_classes", json!([1, 2, 3, 4]));
     query = with(query, "vehicle_parameters", vehicle(4.0, 15000.0));
-    let mut c = ECase { family: "random_crowded".into(), edges, classes: Some(classes), restrictions: Some(restrictions), mapping: vec![], tol_bits: None, unit: None, query, seq: vec![] };
+    let mut c = ECase { family: "random_crowded".into(), edges, classes: Some(classes), restrictions: Some(restrictions), mapping: vec![], tol_bits: None, unit: None, query, seq: vec![], then: vec![] };
     if r.chance(1, 2) {
         let adm = admissible_set(&c, &c.query);
         if let Some((b, u)) = random_tolerance(r, o, &adm) {
@@ -1421,7 +1512,7 @@ fn random_edge_case(r: &mut Rng) -> ECase {
             query = with(query, "vehicle_parameters", vehicle(4.0, 15000.0));
         }
     }
-    let mut c = ECase { family: if polar { "random_high_latitude".into() } else { "random".into() }, edges, classes, restrictions, mapping, tol_bits: None, unit: None, query, seq: vec![] };
+    let mut c = ECase { family: if polar { "random_high_latitude".into() } else { "random".into() }, edges, classes, restrictions, mapping, tol_bits: None, unit: None, query, seq: vec![], then: vec![] };
     if r.chance(2, 5) {
         // 1..5 more queries on the same plugin instance: the bit-identical coordinate again with other vehicle
         // parameters / road classes / with and without destination, interleaved with other coordinates
@@ -1451,6 +1542,22 @@ fn random_edge_case(r: &mut Rng) -> ECase {
             c.seq.push(q);
         }
         c.family = format!("{}_sequence", c.family);
+    }
+    if c.edges.len() >= 2 && r.chance(1, 10) {
+        let mut second = c.clone();
+        second.edges.reverse();
+        if let Some(cl) = &mut second.classes {
+            cl.reverse();
+        }
+        let n = second.edges.len();
+        if let Some(rs) = &mut second.restrictions {
+            for row in rs.iter_mut() {
+                row.0 = n - 1 - row.0;
+            }
+        }
+        second.family = "random_rebuild".into();
+        c.then = vec![second];
+        c.family = "random_rebuild".into();
     }
     if r.chance(3, 5) {
         // tolerance around the distance of the nearest admissible edge: needs the admissible set, which needs
